@@ -1115,9 +1115,13 @@ def dmt_block_valid(arr: np.ndarray, dm_delays: np.ndarray) -> np.ndarray:
             f"samples, given {nsamps}."
         )
         raise ValueError(msg)
+    # The valid columns are those that do not wrap for any of the trial DMs
+    start_col = max_pos_shift
+    end_col = nsamps + min_neg_shift
     res = np.empty((ndms, valid_samples), dtype=arr.dtype)
     for idm in range(ndms):
-        res[idm] = np.sum(roll_block_valid(arr, dm_delays[idm]), axis=0)
+        rolled = roll_block(arr, dm_delays[idm])
+        res[idm] = np.sum(rolled[:, start_col:end_col], axis=0)
     return res
 
 
